@@ -557,6 +557,270 @@ Proof.
   - intros p e _ [].
 Qed.
 
+
+(* ---- the close in phases: what every step inside it keeps --------------------------------- *)
+Lemma find_sess_upd_other : forall sid sid' f l, sid' <> sid -> (forall s, ss_sid (f s) = ss_sid s) ->
+  find_sess sid (upd_sess sid' f l) = find_sess sid l.
+Proof.
+  intros sid sid' f l Hne Hf. unfold find_sess, upd_sess. induction l as [|s r IH]; simpl; [reflexivity|].
+  destruct (ss_sid s =? sid') eqn:E1.
+  - rewrite Hf. apply N.eqb_eq in E1. destruct (ss_sid s =? sid) eqn:E2.
+    + apply N.eqb_eq in E2. congruence.
+    + exact IH.
+  - destruct (ss_sid s =? sid); [reflexivity | exact IH].
+Qed.
+
+Lemma find_sess_upd_same : forall sid f l, (forall s, ss_sid (f s) = ss_sid s) ->
+  find_sess sid (upd_sess sid f l) = option_map f (find_sess sid l).
+Proof.
+  intros sid f l Hf. unfold find_sess, upd_sess. induction l as [|s r IH]; simpl; [reflexivity|].
+  destruct (ss_sid s =? sid) eqn:E1.
+  - rewrite Hf, E1. reflexivity.
+  - rewrite E1. exact IH.
+Qed.
+
+Lemma drop_ids_nil : forall l, drop_ids [] l = l.
+Proof. unfold drop_ids. induction l as [|e r IH]; [reflexivity|]. simpl. f_equal. exact IH. Qed.
+
+Lemma del_sess_absent : forall sid l, find_sess sid l = None -> del_sess sid l = l.
+Proof.
+  intros sid l. unfold find_sess, del_sess. induction l as [|s r IH]; simpl; [reflexivity|].
+  destruct (ss_sid s =? sid); simpl; [discriminate|]. intro H. rewrite IH by assumption. reflexivity.
+Qed.
+
+Lemma ss_sid_clear_tab : forall k s, ss_sid (clear_tab k s) = ss_sid s.
+Proof. destruct k; reflexivity. Qed.
+
+Lemma owns_clear_tab : forall k s k' id, owns (clear_tab k s) k' id = true -> owns s k' id = true /\ k' <> k.
+Proof. intros k s k' id H. destruct k, k'; simpl in *; try discriminate; split; try assumption; discriminate. Qed.
+
+Lemma owns_tab : forall s k id, owns s k id = true <-> In id (tab k s).
+Proof. intros s k id. destruct k; simpl; apply memN_In. Qed.
+
+(* clearPublishers / clearSubscribers of a session *)
+Lemma InvC_clear_kind : forall nsid nobj ss cl mo pe k s0,
+  InvC nsid nobj ss cl mo pe -> In s0 ss ->
+  InvC nsid nobj (upd_sess (ss_sid s0) (clear_tab k) ss) (drop_ids (tab k s0) cl) (drop_ids (tab k s0) mo) pe.
+Proof.
+  intros nsid nobj ss cl mo pe k s0 H Hs0. destruct H.
+  set (ss' := upd_sess (ss_sid s0) (clear_tab k) ss).
+  assert (Hkeep : forall e, owns_entry ss e -> ~ In (e_id e) (tab k s0) -> owns_entry ss' e).
+  { intros e [s [Hs [Ho Hw]]] Hn.
+    exists (if ss_sid s =? ss_sid s0 then clear_tab k s else s). split; [apply upd_sess_In; assumption|].
+    destruct (ss_sid s =? ss_sid s0) eqn:E; [|split; assumption].
+    apply N.eqb_eq in E.
+    assert (s = s0) by (apply (NoDup_map_inj ss_sid ss); auto). subst s.
+    split; [rewrite ss_sid_clear_tab; exact Ho|].
+    destruct k, (e_kind e) eqn:Ek; simpl in *; try exact Hw; exfalso; apply Hn; apply memN_In; exact Hw. }
+  constructor; try assumption.
+  - unfold ss'. rewrite sids_upd_sess; [assumption | intros; apply ss_sid_clear_tab].
+  - intros s' Hs'. apply In_upd_sess in Hs'. destruct Hs' as [s [Hs [[E1 E2]|[E1 E2]]]]; subst.
+    + rewrite ss_sid_clear_tab. apply inv_sid_bound0; assumption.
+    + apply inv_sid_bound0; assumption.
+  - intros e He. apply In_drop_ids in He. destruct He as [He Hn]. apply Hkeep; auto.
+  - intros e He. apply In_drop_ids in He. destruct He as [He Hn]. apply Hkeep; auto.
+  - intros s' k' id Hs' Ho. apply In_upd_sess in Hs'. destruct Hs' as [s [Hs [[E1 E2]|[E1 E2]]]]; subst s'.
+    + rewrite ss_sid_clear_tab. apply owns_clear_tab in Ho. destruct Ho as [Ho Hk].
+      assert (s = s0) by (apply (NoDup_map_inj ss_sid ss); auto). subst s.
+      apply In_drop_ids. split; [apply inv_tab0; assumption|].
+      unfold e_id; simpl. intro Hin. apply owns_tab in Hin.
+      assert (Heq : (id, k', ss_sid s0) = (id, k, ss_sid s0))
+        by (apply (NoDup_map_inj e_id cl); auto).
+      apply Hk. congruence.
+    + apply In_drop_ids. split; [apply inv_tab0; assumption|].
+      unfold e_id; simpl. intro Hin. apply owns_tab in Hin.
+      assert (Heq : (id, k', ss_sid s) = (id, k, ss_sid s0))
+        by (apply (NoDup_map_inj e_id cl); auto).
+      apply E1. congruence.
+  - apply NoDup_map_filter; assumption.
+  - intros e He. apply In_drop_ids in He. apply inv_fresh_c0; tauto.
+  - intros p e Hp He. apply In_drop_ids in He. apply inv_pend_fresh0; tauto.
+Qed.
+
+(* what no step of a close changes: the session ids, the session counter; connections
+   only lose (closed) or keep their session *)
+Definition conn_le (st st' : state) : Prop :=
+  forall c, cs_closed (conns st' c) = false ->
+    cs_closed (conns st c) = false /\ cs_sess (conns st' c) = cs_sess (conns st c).
+Definition ext (st st' : state) : Prop :=
+  map ss_sid (sessions st') = map ss_sid (sessions st) /\ next_sid st' = next_sid st /\ conn_le st st'.
+
+Lemma ext_refl : forall st, ext st st.
+Proof. intros st. split; [reflexivity|]. split; [reflexivity|]. intros c H. auto. Qed.
+
+Lemma ext_trans : forall a b c, ext a b -> ext b c -> ext a c.
+Proof.
+  intros a b c [H1 [H2 H3]] [G1 [G2 G3]]. split; [congruence|]. split; [congruence|].
+  intros x Hx. destruct (G3 x Hx) as [Hb Hs]. destruct (H3 x Hb) as [Ha Hs']. split; [assumption | congruence].
+Qed.
+
+Lemma conn_le_upd : forall st st' c v, conns st' = upd_conn (conns st) c v ->
+  (cs_closed v = false -> cs_closed (conns st c) = false /\ cs_sess v = cs_sess (conns st c)) ->
+  conn_le st st'.
+Proof.
+  intros st st' c v Hc Hv c' Hc'. rewrite Hc in *. unfold upd_conn in *.
+  destruct (c' =? c) eqn:E; [apply N.eqb_eq in E; subst c'; auto | auto].
+Qed.
+
+Definition nohello (ms : list (N * msg)) : Prop :=
+  Forall (fun x => match snd x with MHello _ => False | _ => True end) ms.
+
+Lemma nohello_send : forall st c m, match m with MHello _ => False | _ => True end -> nohello (send st c m).
+Proof. intros st c m H. unfold send. destruct (cs_closed (conns st c)); constructor; [exact H | constructor]. Qed.
+
+Lemma nohello_send_sess : forall st sid m, match m with MHello _ => False | _ => True end -> nohello (send_sess st sid m).
+Proof. intros st sid m H. unfold send_sess. destruct (find_sess sid (sessions st)); [apply nohello_send; exact H | constructor]. Qed.
+
+Lemma nohello_app : forall a b, nohello a -> nohello b -> nohello (a ++ b).
+Proof. intros a b Ha Hb. apply Forall_app. split; assumption. Qed.
+
+Section Phased.
+Context (rc : bool).
+
+Lemma mcu_done_ext : forall st tok r, ext st (fst (mcu_done rc st tok r)).
+Proof.
+  intros st tok r. unfold mcu_done.
+  destruct (find (fun p => p_tok p =? tok) (pendings st)) as [p|]; [|apply ext_refl].
+  assert (Hc : forall st', conns st' = upd_conn (conns st) (p_conn p)
+             {| cs_sess := cs_sess (conns st (p_conn p)); cs_closed := cs_closed (conns st (p_conn p)); cs_busy := false |} ->
+             conn_le st st').
+  { intros st' E. eapply conn_le_upd; [exact E | simpl; auto]. }
+  destruct r; simpl.
+  - destruct (find_sess (p_sid p) (sessions st)); simpl.
+    + split; [simpl; rewrite sids_upd_sess; [reflexivity | intros; apply ss_sid_remember]|].
+      split; [reflexivity | apply Hc; reflexivity].
+    + destruct rc; (split; [reflexivity|]; split; [reflexivity | apply Hc; reflexivity]).
+  - split; [reflexivity|]. split; [reflexivity | apply Hc; reflexivity].
+  - split; [reflexivity|]. split; [reflexivity | apply Hc; reflexivity].
+Qed.
+
+Lemma mcu_done_nohello : forall st tok r, nohello (msgs (snd (mcu_done rc st tok r))).
+Proof.
+  intros st tok r. unfold mcu_done.
+  destruct (find (fun p => p_tok p =? tok) (pendings st)) as [p|]; [|constructor].
+  destruct r; simpl.
+  - destruct (find_sess (p_sid p) (sessions st)); simpl; [apply nohello_send_sess; exact I|].
+    destruct rc; constructor.
+  - apply nohello_send_sess; exact I.
+  - apply nohello_send_sess; exact I.
+Qed.
+
+Lemma mcu_done_in_ext : forall canc sid st tok r, ext st (fst (mcu_done_in rc canc sid st tok r)).
+Proof.
+  intros canc sid st tok r. unfold mcu_done_in.
+  destruct (find (fun p => p_tok p =? tok) (pendings st)) as [p|]; [|apply mcu_done_ext].
+  destruct ((p_sid p =? sid) && is_ok r && canc && rc); [|apply mcu_done_ext].
+  simpl. split; [reflexivity|]. split; [reflexivity|]. eapply conn_le_upd; [reflexivity | simpl; auto].
+Qed.
+
+Lemma mcu_done_in_nohello : forall canc sid st tok r, nohello (msgs (snd (mcu_done_in rc canc sid st tok r))).
+Proof.
+  intros canc sid st tok r. unfold mcu_done_in.
+  destruct (find (fun p => p_tok p =? tok) (pendings st)) as [p|]; [|apply mcu_done_nohello].
+  destruct ((p_sid p =? sid) && is_ok r && canc && rc); [constructor | apply mcu_done_nohello].
+Qed.
+
+Lemma window_ext : forall w sid sched st, ext st (fst (window rc w sid sched st)).
+Proof.
+  intros w sid sched. induction sched as [|[[w' tok] r] rest IH]; intros st; simpl; [apply ext_refl|].
+  destruct (phase_eqb w' w); [|apply IH].
+  pose proof (mcu_done_in_ext (cancelled w) sid st tok r) as H1.
+  destruct (mcu_done_in rc (cancelled w) sid st tok r) as [st1 o1]. simpl in H1.
+  pose proof (IH st1) as H2. destruct (window rc w sid rest st1) as [st2 m2]. simpl in *.
+  eapply ext_trans; eassumption.
+Qed.
+
+Lemma window_nohello : forall w sid sched st, nohello (snd (window rc w sid sched st)).
+Proof.
+  intros w sid sched. induction sched as [|[[w' tok] r] rest IH]; intros st; simpl; [constructor|].
+  destruct (phase_eqb w' w); [|apply IH].
+  pose proof (mcu_done_in_nohello (cancelled w) sid st tok r) as H1.
+  destruct (mcu_done_in rc (cancelled w) sid st tok r) as [st1 o1]. simpl in H1.
+  pose proof (IH st1) as H2. destruct (window rc w sid rest st1) as [st2 m2]. simpl in *.
+  apply nohello_app; assumption.
+Qed.
+
+Lemma clear_kind_ext : forall k sid st, ext st (clear_kind k sid st).
+Proof.
+  intros k sid st. unfold clear_kind. destruct (find_sess sid (sessions st)); [|apply ext_refl].
+  split; [simpl; rewrite sids_upd_sess; [reflexivity | intros; apply ss_sid_clear_tab]|].
+  split; [reflexivity|]. intros c H. auto.
+Qed.
+
+(* the close removes the session and nothing else; no session id appears *)
+Lemma close_phased_sids : forall st sid r sched,
+  ~ In sid (map ss_sid (sessions (fst (close_phased rc st sid r sched)))) /\
+  (forall x, In x (map ss_sid (sessions (fst (close_phased rc st sid r sched)))) -> In x (map ss_sid (sessions st))) /\
+  next_sid (fst (close_phased rc st sid r sched)) = next_sid st /\
+  conn_le st (fst (close_phased rc st sid r sched)) /\
+  nohello (snd (close_phased rc st sid r sched)).
+Proof.
+  intros st sid r sched. unfold close_phased.
+  destruct (find_sess sid (sessions st)) as [s|] eqn:Ef.
+  2:{ simpl. split; [apply find_sess_none; assumption|]. split; [auto|]. split; [reflexivity|].
+      split; [intros c H; auto | constructor]. }
+  set (st0 := {| next_sid := next_sid st; next_obj := next_obj st; sessions := sessions st;
+                 conns := upd_conn (conns st) (ss_conn s) {| cs_sess := None; cs_closed := true; cs_busy := cs_busy (conns st (ss_conn s)) |};
+                 clients := clients st; mopen := mopen st; pendings := pendings st |}).
+  assert (H0 : ext st st0).
+  { split; [reflexivity|]. split; [reflexivity|]. eapply conn_le_upd; [reflexivity | simpl; discriminate]. }
+  pose proof (window_ext PhList sid sched st0) as H1. pose proof (window_nohello PhList sid sched st0) as N1.
+  destruct (window rc PhList sid sched st0) as [st1 m1]. simpl in H1, N1.
+  pose proof (window_ext PhCtx sid sched st1) as H2. pose proof (window_nohello PhCtx sid sched st1) as N2.
+  destruct (window rc PhCtx sid sched st1) as [st2 m2]. simpl in H2, N2.
+  pose proof (clear_kind_ext Pub sid st2) as H2'.
+  pose proof (window_ext PhPubs sid sched (clear_kind Pub sid st2)) as H3. pose proof (window_nohello PhPubs sid sched (clear_kind Pub sid st2)) as N3.
+  destruct (window rc PhPubs sid sched (clear_kind Pub sid st2)) as [st3 m3]. simpl in H3, N3.
+  pose proof (clear_kind_ext Sub sid st3) as H3'.
+  pose proof (window_ext PhSubs sid sched (clear_kind Sub sid st3)) as H4. pose proof (window_nohello PhSubs sid sched (clear_kind Sub sid st3)) as N4.
+  destruct (window rc PhSubs sid sched (clear_kind Sub sid st3)) as [st4 m4]. simpl in H4, N4.
+  pose proof (window_ext PhRemote sid sched st4) as H5. pose proof (window_nohello PhRemote sid sched st4) as N5.
+  destruct (window rc PhRemote sid sched st4) as [st5 m5]. simpl in H5, N5.
+  assert (H : ext st st5).
+  { eapply ext_trans; [exact H0|]. eapply ext_trans; [exact H1|]. eapply ext_trans; [exact H2|].
+    eapply ext_trans; [exact H2'|]. eapply ext_trans; [exact H3|]. eapply ext_trans; [exact H3'|].
+    eapply ext_trans; [exact H4 | exact H5]. }
+  destruct H as [G1 [G2 G3]]. simpl.
+  split; [apply del_sess_gone|].
+  split; [intros x Hx; apply sids_del_sess_incl in Hx; rewrite G1 in Hx; exact Hx|].
+  split; [exact G2|]. split; [exact G3|].
+  apply nohello_app; [apply nohello_send; exact I|].
+  repeat (apply nohello_app; [assumption|]). assumption.
+Qed.
+
+End Phased.
+
+(* the repaired code: every step inside the close keeps the invariant (the session being
+   closed still counts as a session until the last step), and what was cleared stays empty *)
+Definition tab_empty (k : kind) (sid : N) (st : state) : Prop :=
+  forall s, find_sess sid (sessions st) = Some s -> tab k s = [].
+
+Lemma Inv_unpend : forall st p, Inv st -> Inv (unpend st p).
+Proof. intros st p H. unfold Inv, unpend; simpl. apply InvC_unpend; assumption. Qed.
+
+Lemma clear_kind_empties : forall k sid st, tab_empty k sid (clear_kind k sid st).
+Proof.
+  intros k sid st s. unfold clear_kind. destruct (find_sess sid (sessions st)) as [s0|] eqn:E; simpl.
+  - rewrite find_sess_upd_same by (intros; apply ss_sid_clear_tab). rewrite E. simpl.
+    intro H. inversion H. destruct k; reflexivity.
+  - rewrite E. discriminate.
+Qed.
+
+Lemma clear_kind_keeps : forall k k' sid st, tab_empty k sid st -> tab_empty k sid (clear_kind k' sid st).
+Proof.
+  intros k k' sid st H s. unfold clear_kind. destruct (find_sess sid (sessions st)) as [s0|] eqn:E; simpl.
+  - rewrite find_sess_upd_same by (intros; apply ss_sid_clear_tab). rewrite E. simpl.
+    intro H1. inversion H1. pose proof (H s0 E) as H0. destruct k, k'; simpl in *; auto.
+  - intro H1. apply H. exact H1.
+Qed.
+
+Lemma Inv_clear_kind : forall k sid st, Inv st -> Inv (clear_kind k sid st).
+Proof.
+  intros k sid st H. unfold clear_kind. destruct (find_sess sid (sessions st)) as [s|] eqn:E; [|assumption].
+  apply find_sess_some in E. destruct E as [Hin Hsid]. unfold Inv; simpl. rewrite <- Hsid.
+  apply InvC_clear_kind; assumption.
+Qed.
+
 (* ---- every operation of the repaired model keeps the invariant ------------------------ *)
 Section Steps.
 Context (sv : string -> N -> N -> N -> bool).
@@ -596,9 +860,83 @@ Proof.
   - unfold Inv; simpl. apply InvC_unpend; assumption.
 Qed.
 
+
+Lemma Inv_mcu_done_in : forall canc sid st tok r, Inv st -> Inv (fst (mcu_done_in true canc sid st tok r)).
+Proof.
+  intros canc sid st tok r H. unfold mcu_done_in.
+  destruct (find (fun p => p_tok p =? tok) (pendings st)) as [p|] eqn:E; [|apply Inv_mcu_done; assumption].
+  destruct ((p_sid p =? sid) && is_ok r && canc && true); [|apply Inv_mcu_done; assumption].
+  simpl. apply find_some in E. destruct E as [_ Ht]. apply N.eqb_eq in Ht.
+  unfold Inv, unpend; simpl. apply InvC_unpend; assumption.
+Qed.
+
+Lemma mcu_done_in_keeps : forall k sid st tok r,
+  tab_empty k sid st -> tab_empty k sid (fst (mcu_done_in true true sid st tok r)).
+Proof.
+  intros k sid st tok r H. unfold mcu_done_in.
+  destruct (find (fun p => p_tok p =? tok) (pendings st)) as [p|] eqn:E.
+  2:{ unfold mcu_done. rewrite E. exact H. }
+  destruct ((p_sid p =? sid) && is_ok r) eqn:Eo; simpl; [exact H|].
+  unfold mcu_done. rewrite E. destruct r; simpl; try exact H.
+  destruct (find_sess (p_sid p) (sessions st)); simpl; [|exact H].
+  rewrite andb_true_r in Eo. apply N.eqb_neq in Eo.
+  intros s1 Hs. simpl in Hs. rewrite find_sess_upd_other in Hs; [apply H; exact Hs | exact Eo | intros; apply ss_sid_remember].
+Qed.
+
+Lemma Inv_window : forall w sid sched st, Inv st -> Inv (fst (window true w sid sched st)).
+Proof.
+  intros w sid sched. induction sched as [|[[w' tok] r] rest IH]; intros st H; simpl; [assumption|].
+  destruct (phase_eqb w' w); [|apply IH; assumption].
+  pose proof (Inv_mcu_done_in (cancelled w) sid st tok r H) as H1.
+  destruct (mcu_done_in true (cancelled w) sid st tok r) as [st1 o1]. simpl in H1.
+  pose proof (IH st1 H1) as H2. destruct (window true w sid rest st1) as [st2 m2]. exact H2.
+Qed.
+
+Lemma window_keeps : forall k w sid sched st, cancelled w = true ->
+  tab_empty k sid st -> tab_empty k sid (fst (window true w sid sched st)).
+Proof.
+  intros k w sid sched st Hw. revert st. induction sched as [|[[w' tok] r] rest IH]; intros st H; simpl; [assumption|].
+  destruct (phase_eqb w' w); [|apply IH; assumption].
+  rewrite Hw. pose proof (mcu_done_in_keeps k sid st tok r H) as H1.
+  destruct (mcu_done_in true true sid st tok r) as [st1 o1]. simpl in H1.
+  pose proof (IH st1 H1) as H2. destruct (window true w sid rest st1) as [st2 m2]. exact H2.
+Qed.
+
+Lemma Inv_close_phased : forall st sid r sched, Inv st -> Inv (fst (close_phased true st sid r sched)).
+Proof.
+  intros st sid r sched H. unfold close_phased.
+  destruct (find_sess sid (sessions st)) as [s|] eqn:Ef; [|exact H].
+  set (st0 := {| next_sid := next_sid st; next_obj := next_obj st; sessions := sessions st;
+                 conns := upd_conn (conns st) (ss_conn s) {| cs_sess := None; cs_closed := true; cs_busy := cs_busy (conns st (ss_conn s)) |};
+                 clients := clients st; mopen := mopen st; pendings := pendings st |}).
+  assert (H0 : Inv st0) by exact H.
+  pose proof (Inv_window PhList sid sched st0 H0) as H1.
+  destruct (window true PhList sid sched st0) as [st1 m1]. simpl in H1.
+  pose proof (Inv_window PhCtx sid sched st1 H1) as H2.
+  destruct (window true PhCtx sid sched st1) as [st2 m2]. simpl in H2.
+  pose proof (Inv_window PhPubs sid sched _ (Inv_clear_kind Pub sid st2 H2)) as H3.
+  pose proof (window_keeps Pub PhPubs sid sched _ eq_refl (clear_kind_empties Pub sid st2)) as P3.
+  destruct (window true PhPubs sid sched (clear_kind Pub sid st2)) as [st3 m3]. simpl in H3, P3.
+  pose proof (Inv_window PhSubs sid sched _ (Inv_clear_kind Sub sid st3 H3)) as H4.
+  pose proof (window_keeps Pub PhSubs sid sched _ eq_refl (clear_kind_keeps Pub Sub sid st3 P3)) as P4.
+  pose proof (window_keeps Sub PhSubs sid sched _ eq_refl (clear_kind_empties Sub sid st3)) as S4.
+  destruct (window true PhSubs sid sched (clear_kind Sub sid st3)) as [st4 m4]. simpl in H4, P4, S4.
+  pose proof (Inv_window PhRemote sid sched st4 H4) as H5.
+  pose proof (window_keeps Pub PhRemote sid sched st4 eq_refl P4) as P5.
+  pose proof (window_keeps Sub PhRemote sid sched st4 eq_refl S4) as S5.
+  destruct (window true PhRemote sid sched st4) as [st5 m5]. simpl in H5, P5, S5.
+  simpl. unfold Inv; simpl.
+  destruct (find_sess sid (sessions st5)) as [s5|] eqn:E5.
+  - pose proof (P5 s5 E5) as Hp. pose proof (S5 s5 E5) as Hs. simpl in Hp, Hs.
+    apply find_sess_some in E5. destruct E5 as [Hin Hsid].
+    pose proof (InvC_close _ _ _ _ _ _ s5 H5 Hin) as Hc.
+    rewrite Hp, Hs, Hsid in Hc. simpl in Hc. rewrite !drop_ids_nil in Hc. exact Hc.
+  - rewrite del_sess_absent by assumption. exact H5.
+Qed.
+
 Lemma Inv_step : forall st o, Inv st -> Inv (fst (stepT st o)).
 Proof.
-  intros st o H. destruct o as [c now t | c sid | c | c k | c id p | c | c | c b | c | sid | | tok r]; simpl; unfold on_conn;
+  intros st o H. destruct o as [c now t | c sid | c | c k | c id p | c | c | c b | c | sid | | tok r | c sched | sid sched]; simpl; unfold on_conn;
     try (destruct (cs_closed (conns st c) || cs_busy (conns st c)); [exact H|]);
     try (destruct (cs_sess (conns st c)) as [sid0|]; simpl; try exact H).
   - (* hello *)
@@ -629,6 +967,12 @@ Proof.
     unfold Inv; simpl. apply InvC_mculost; assumption.
   - (* creation completes *)
     apply Inv_mcu_done; assumption.
+  - (* bye, the close in phases *)
+    pose proof (Inv_close_phased st sid0 RClosed sched H) as Hc.
+    destruct (close_phased true st sid0 RClosed sched). exact Hc.
+  - (* expiry, the close in phases *)
+    pose proof (Inv_close_phased st sid RExpired sched H) as Hc.
+    destruct (close_phased true st sid RExpired sched). exact Hc.
 Qed.
 
 Definition run (ops : list op) : state := fold_left (fun st o => fst (stepT st o)) ops init.
@@ -717,7 +1061,7 @@ Qed.
 Definition conn_of (o : op) : option N :=
   match o with
   | OHello c _ _ | OResume c _ | OResumeBad c | OCmd c _ | OPayload c _ _ | OBye c
-  | OUnknownType c | OMalformed c _ => Some c
+  | OUnknownType c | OMalformed c _ | OByeIn c _ => Some c
   | _ => None
   end.
 
@@ -728,7 +1072,7 @@ Proof. intros. unfold chk_step. simpl. apply pobs_same. Qed.
 
 (* an operation that is answered with an error and changes nothing *)
 Lemma err_ok : forall st b o c e, Inv st ->
-  conn_of o = Some c -> (forall c', o = OBye c' -> bound b c' = None) ->
+  conn_of o = Some c -> match o with OBye c' | OByeIn c' _ => bound b c' = None | _ => True end ->
   chk_step sv keys b (pobs st) o (obs_of st {| applied := true; msgs := [(c, MErr e)] |}) = true.
 Proof.
   intros st b o c e HI Hc Hbye. unfold chk_step. cbn [ob_applied obs_of applied].
@@ -739,10 +1083,9 @@ Proof.
   - unfold chk_prehello. destruct o; simpl in Hc; try discriminate; inversion Hc; subst; simpl; try reflexivity;
       destruct (bound b c); try reflexivity; rewrite N.eqb_refl; simpl; apply pobs_same.
   - unfold chk_cleanup. rewrite owners_live by assumption.
-    destruct o; simpl in Hc; try discriminate; try reflexivity.
-    rewrite (Hbye c0 eq_refl). reflexivity.
+    destruct o; simpl in Hc; try discriminate; try reflexivity; simpl in Hbye; rewrite Hbye; reflexivity.
   - unfold chk_ids. destruct (named_id o) as [[c1 id]|] eqn:En; [|reflexivity].
-    assert (c1 = c) by (destruct o as [| | |? k| | | | | | | |]; simpl in *; try discriminate; [destruct k|]; simpl in *; congruence).
+    assert (c1 = c) by (destruct o as [| | |? k| | | | | | | | | |]; simpl in *; try discriminate; [destruct k|]; simpl in *; congruence).
     subst c1. cbn [ob_msgs obs_of msgs ob_clients ob_open]. 
     assert (Herr : only_errors_to c [(c, MErr e)] = true) by (simpl; rewrite N.eqb_refl; reflexivity).
     rewrite Herr. apply andb_true_iff. split; [destruct (memN id (ids (ob_clients (pobs st)))); reflexivity|].
@@ -761,7 +1104,7 @@ Proof.
 Qed.
 
 Lemma chk_cleanup_plain : forall st' b prev o out, Inv st' ->
-  match o with OMcuLost | OBye _ | OExpire _ => False | _ => True end ->
+  match o with OMcuLost | OBye _ | OExpire _ | OByeIn _ _ | OExpireIn _ _ => False | _ => True end ->
   chk_cleanup b prev o (obs_of st' out) = true.
 Proof.
   intros st' b prev o out HI Ho. unfold chk_cleanup. rewrite owners_live by assumption.
@@ -850,6 +1193,60 @@ Proof.
     eapply bind_ok_upd; [reflexivity | exact Hb | simpl; discriminate].
 Qed.
 
+
+(* the close of a session, atomic or in phases: what the predicate needs to know about it *)
+Lemma nohello_quiet : forall ms, nohello ms -> hello_sids ms = [] /\ forall b, bind_step b ms = b.
+Proof.
+  intros ms H. unfold hello_sids, bind_step. induction H as [|x l Hx Hl IH]; simpl; [auto|].
+  destruct IH as [IH1 IH2]. destruct x as [c m]. destruct m; simpl in *; try contradiction; auto.
+Qed.
+
+Lemma close_gen_ok : forall st b sid o st' ms, Inv st -> bind_ok st b ->
+  match o with
+  | OBye c | OByeIn c _ => cs_closed (conns st c) = false /\ cs_sess (conns st c) = Some sid
+  | OExpire s | OExpireIn s _ => s = sid
+  | _ => False
+  end ->
+  Inv st' -> ~ In sid (map ss_sid (sessions st')) ->
+  (forall x, In x (map ss_sid (sessions st')) -> In x (map ss_sid (sessions st))) ->
+  nohello ms -> conn_le st st' ->
+  chk_step sv keys b (pobs st) o (obs_of st' {| applied := true; msgs := ms |}) = true /\
+  bind_ok st' (bind_step b ms).
+Proof.
+  intros st b sid o st' ms HI Hb Ho HI' Hgone Hincl Hnh Hle.
+  destruct (nohello_quiet ms Hnh) as [Hm1 Hm2]. split.
+  - unfold chk_step. cbn [ob_applied obs_of applied]. four.
+    + apply chk_sessions_quiet; assumption.
+    + unfold chk_prehello. destruct o; try contradiction; simpl; try reflexivity;
+        destruct Ho as [Ho1 Ho2]; rewrite (Hb _ Ho1), Ho2; reflexivity.
+    + unfold chk_cleanup. rewrite owners_live by assumption. rewrite sids_obs.
+      apply memN_false in Hgone.
+      destruct o; try contradiction; simpl.
+      * destruct Ho as [Ho1 Ho2]. rewrite (Hb _ Ho1), Ho2, Hgone. reflexivity.
+      * subst. rewrite Hgone. reflexivity.
+      * destruct Ho as [Ho1 Ho2]. rewrite (Hb _ Ho1), Ho2, Hgone. reflexivity.
+      * subst. rewrite Hgone. reflexivity.
+    + unfold chk_ids. destruct o; try contradiction; reflexivity.
+  - rewrite Hm2. intros c Hc. destruct (Hle c Hc) as [H1 H2]. rewrite H2. apply Hb; assumption.
+Qed.
+
+Lemma phased_ok : forall st b sid r sched o, Inv st -> bind_ok st b ->
+  match o with
+  | OByeIn c _ => cs_closed (conns st c) = false /\ cs_sess (conns st c) = Some sid
+  | OExpireIn s _ => s = sid
+  | _ => False
+  end ->
+  Inv (fst (close_phased true st sid r sched)) ->
+  chk_step sv keys b (pobs st) o (obs_of (fst (close_phased true st sid r sched))
+                                   {| applied := true; msgs := snd (close_phased true st sid r sched) |}) = true /\
+  bind_ok (fst (close_phased true st sid r sched)) (bind_step b (snd (close_phased true st sid r sched))).
+Proof.
+  intros st b sid r sched o HI Hb Ho HI'.
+  destruct (close_phased_sids true st sid r sched) as [G1 [G2 [_ [G4 G5]]]].
+  apply (close_gen_ok st b sid o); try assumption.
+  destruct o; try contradiction; exact Ho.
+Qed.
+
 (* a reply to a welcomed connection naming an id that resolves; state unchanged
    (get-publisher-streams, payload) *)
 Lemma reply_ok : forall st b o c m id e s, Inv st ->
@@ -877,7 +1274,7 @@ Proof.
   intros st b c sid k id o HI Hb Ecl Es Ho HI'.
   assert (Hbc : bound b c = Some sid) by (rewrite (Hb c Ecl); exact Es).
   assert (Hconn : conn_of o = Some c) by (subst o; reflexivity).
-  assert (Hnb : forall c', o = OBye c' -> bound b c' = None) by (intros c' E; subst o; discriminate).
+  assert (Hnb : match o with OBye c' | OByeIn c' _ => bound b c' = None | _ => True end) by (subst o; exact I).
   unfold delete in *.
   destruct (find_entry id (clients st)) as [e|] eqn:Ef; simpl in *;
     [| rewrite send_open by assumption; split; [apply err_ok; assumption | exact Hb]].
@@ -948,14 +1345,14 @@ Qed.
 Ltac skip_case Hb := simpl; split; [apply skip_ok | exact Hb].
 Ltac err_case Hb :=
   simpl; rewrite ?send_open by assumption;
-  split; [apply err_ok; [assumption | reflexivity | intros ? E; first [discriminate | inversion E; subst; congruence]] | exact Hb].
+  split; [apply err_ok; [assumption | reflexivity | simpl; first [exact I | congruence]] | exact Hb].
 
 Lemma step_ok : forall st b o, Inv st -> bind_ok st b ->
   chk_step sv keys b (pobs st) o (obs_of (fst (stepT st o)) (snd (stepT st o))) = true /\
   bind_ok (fst (stepT st o)) (bind_step b (msgs (snd (stepT st o)))).
 Proof.
   intros st b o HI Hb. pose proof (Inv_step sv keys st o HI) as HI'.
-  destruct o as [c now t | c sid | c | c k | c id p | c | c | c bd | c | sid | | tok r];
+  destruct o as [c now t | c sid | c | c k | c id p | c | c | c bd | c | sid | | tok r | c sched | sid sched];
     cbn [step] in *; unfold on_conn in *;
     try (destruct (cs_closed (conns st c)) eqn:Ecl; [skip_case Hb|];
          destruct (cs_busy (conns st c)) eqn:Ebu; [skip_case Hb|];
@@ -1074,6 +1471,13 @@ Proof.
     + rewrite bind_step_flat by exact I. eapply bind_ok_conns; [reflexivity | exact Hb].
   - (* a creation completes *)
     apply mcu_done_ok; assumption.
+  - (* bye, the close in phases *)
+    destruct (cs_sess (conns st c)) as [sid0|] eqn:Es; [|err_case Hb].
+    pose proof (phased_ok st b sid0 RClosed sched (OByeIn c sched) HI Hb (conj Ecl Es)) as Hc.
+    destruct (close_phased true st sid0 RClosed sched) as [st1 out1]. simpl in *. apply Hc; assumption.
+  - (* expiry, the close in phases *)
+    pose proof (phased_ok st b sid RExpired sched (OExpireIn sid sched) HI Hb eq_refl) as Hc.
+    destruct (close_phased true st sid RExpired sched) as [st1 out1]. simpl in *. apply Hc; assumption.
 Qed.
 
 (* ---- the headline: P_C18 holds on every trace of the repaired model ------------------- *)
@@ -1128,7 +1532,7 @@ Lemma step_sids : forall rc st o x,
   (exists c now t, o = OHello c now t /\ check_token sv keys now t = None /\ x = next_sid st + 1).
 Proof.
   intros rc st o x H.
-  destruct o as [c now t | c sid | c | c k | c id p | c | c | c bd | c | sid | | tok r];
+  destruct o as [c now t | c sid | c | c k | c id p | c | c | c bd | c | sid | | tok r | c sched | sid sched];
     cbn [step] in H; unfold on_conn in H;
     try (destruct (cs_closed (conns st c) || cs_busy (conns st c)); [left; exact H|]);
     try (destruct (cs_sess (conns st c)) as [sid0|]; simpl in H; try (left; exact H)).
@@ -1155,6 +1559,10 @@ Proof.
     destruct (find_sess (p_sid p) (sessions st)); simpl in H.
     + rewrite sids_upd_sess in H; [exact H | intros; apply ss_sid_remember].
     + destruct rc; exact H.
+  - left. pose proof (proj1 (proj2 (close_phased_sids rc st sid0 RClosed sched))) as Hs.
+    destruct (close_phased rc st sid0 RClosed sched). simpl in *. apply Hs; exact H.
+  - left. pose proof (proj1 (proj2 (close_phased_sids rc st sid RExpired sched))) as Hs.
+    destruct (close_phased rc st sid RExpired sched). simpl in *. apply Hs; exact H.
 Qed.
 
 Lemma hello_sound : forall rc st o x,
@@ -1186,7 +1594,7 @@ Lemma prehello_refused : forall rc st o c,
    snd (step sv keys rc st o) = {| applied := true; msgs := [(c, MErr EHelloExpected)] |}).
 Proof.
   intros rc st o c Hc Hs.
-  destruct o as [| | |c0 k|c0 id p|c0|c0|c0 bd| | | |]; simpl in Hc; try discriminate; inversion Hc; subst c0;
+  destruct o as [| | |c0 k|c0 id p|c0|c0|c0 bd| | | | |c0 sched|]; simpl in Hc; try discriminate; inversion Hc; subst c0;
     cbn [step]; unfold on_conn; rewrite ?Hs;
     destruct (cs_closed (conns st c)) eqn:Ecl; simpl;
     try (split; [split; [reflexivity | left; reflexivity] | intros; discriminate]);
@@ -1239,6 +1647,53 @@ Proof.
   destruct (close_session st sid RExpired). exact H.
 Qed.
 
+(* the same for the close in phases, whatever completes inside it (repaired code or not) *)
+Lemma bye_in_ends : forall rc st c sid sched,
+  cs_closed (conns st c) = false -> cs_busy (conns st c) = false -> cs_sess (conns st c) = Some sid ->
+  ~ live (fst (step sv keys rc st (OByeIn c sched))) sid.
+Proof.
+  intros rc st c sid sched H1 H2 H3. cbn [step]. unfold on_conn. rewrite H1, H2, H3. simpl.
+  pose proof (proj1 (close_phased_sids rc st sid RClosed sched)) as H.
+  destruct (close_phased rc st sid RClosed sched). exact H.
+Qed.
+
+Lemma expire_in_ends : forall rc st sid sched, ~ live (fst (step sv keys rc st (OExpireIn sid sched))) sid.
+Proof.
+  intros rc st sid sched. cbn [step].
+  pose proof (proj1 (close_phased_sids rc st sid RExpired sched)) as H.
+  destruct (close_phased rc st sid RExpired sched). exact H.
+Qed.
+
+(* with nothing completing inside it the close in phases is the atomic close *)
+Lemma del_sess_upd_sess : forall sid f l, (forall s, ss_sid (f s) = ss_sid s) ->
+  del_sess sid (upd_sess sid f l) = del_sess sid l.
+Proof.
+  intros sid f l Hf. unfold del_sess, upd_sess. induction l as [|s r IH]; simpl; [reflexivity|].
+  destruct (ss_sid s =? sid) eqn:E; simpl.
+  - rewrite Hf, E. simpl. exact IH.
+  - rewrite E. simpl. rewrite IH. reflexivity.
+Qed.
+
+Lemma drop_ids_app : forall a b l, drop_ids b (drop_ids a l) = drop_ids (a ++ b) l.
+Proof.
+  intros a b l. unfold drop_ids. induction l as [|e r IH]; simpl; [reflexivity|].
+  unfold memN in *. rewrite existsb_app.
+  destruct (existsb (N.eqb (e_id e)) a); simpl; [exact IH|].
+  destruct (existsb (N.eqb (e_id e)) b); simpl; [exact IH | rewrite IH; reflexivity].
+Qed.
+
+Lemma close_phased_plain : forall rc st sid r, close_phased rc st sid r [] = close_session st sid r.
+Proof.
+  intros rc st sid r. unfold close_phased, close_session.
+  destruct (find_sess sid (sessions st)) as [s|] eqn:E; [|reflexivity].
+  cbn [window]. unfold clear_kind.
+  repeat (cbn [sessions clients mopen conns pendings next_sid next_obj set_sessions fst snd];
+          rewrite ?find_sess_upd_same by (intros; apply ss_sid_clear_tab); rewrite ?E; cbn [option_map]).
+  unfold set_sessions. cbn [sessions clients mopen conns pendings next_sid next_obj tab clear_tab ss_pubs ss_subs].
+  rewrite !del_sess_upd_sess by (intros; apply ss_sid_clear_tab).
+  rewrite !drop_ids_app. rewrite !app_nil_r. reflexivity.
+Qed.
+
 Lemma mcu_lost_clears : forall ops,
   let st := fst (stepT (run sv keys ops) OMcuLost) in clients st = [] /\ mopen st = [].
 Proof.
@@ -1253,12 +1708,15 @@ Proof. intros. unfold close_session. destruct (find_sess sid (sessions st)); ref
 Lemma next_sid_mono : forall rc st o, next_sid st <= next_sid (fst (step sv keys rc st o)).
 Proof.
   intros rc st o.
-  destruct o as [c now t | c sid | c | c k | c id p | c | c | c bd | c | sid | | tok r];
+  destruct o as [c now t | c sid | c | c k | c id p | c | c | c bd | c | sid | | tok r | c sched | sid sched];
     cbn [step]; unfold on_conn, payload, mcu_done;
     try (destruct k; cbn [command]; unfold create; try rewrite (proj2 (delete_sids _ _ _ _ _)));
     repeat match goal with
     | |- context [let '(_, _) := close_session ?st ?sid ?r in _] =>
         let H := fresh "H" in pose proof (close_next_sid st sid r) as H; destruct (close_session st sid r); cbn [fst] in H
+    | |- context [let '(_, _) := close_phased ?rc ?st ?sid ?r ?sc in _] =>
+        let H := fresh "H" in pose proof (proj1 (proj2 (proj2 (close_phased_sids rc st sid r sc)))) as H;
+        destruct (close_phased rc st sid r sc); cbn [fst] in H
     | |- context [match ?x with _ => _ end] => destruct x; cbn [fst snd next_sid done skip]
     end; cbn [fst snd next_sid done skip]; try rewrite (proj2 (delete_sids _ _ _ _ _)); lia.
 Qed.
@@ -1320,6 +1778,29 @@ Lemma create_after_close_refuted :
   sessions (run_gen false witness_ops) = [] /\
   clients (run_gen false witness_ops) = [(0, Pub, 1)] /\
   mopen (run_gen false witness_ops) = [(0, Pub, 1)].
+Proof. vm_compute. auto. Qed.
+
+(* the same history with the creation completing inside the close, in each window *)
+Definition witness_ops_in (w : phase) (k : cmd) : list op :=
+  [OHello 0 1000%Z witness_tok; OCmd 0 k; OResume 1 1; OByeIn 1 [(w, 0, MOk)]].
+Definition all_windows : list phase := [PhList; PhCtx; PhPubs; PhSubs; PhRemote].
+
+(* repaired code: nothing remains whatever the window; code as found (no second look at the
+   session context): a publisher stays behind when it arrives after clearPublishers, a
+   subscriber when it arrives after clearSubscribers *)
+Lemma create_inside_close_repaired :
+  forallb (fun w => forallb (fun k =>
+     P_C18 sv_all keys_all (trace_of sv_all keys_all true (witness_ops_in w k)) &&
+     null (clients (run_gen true (witness_ops_in w k))) && null (mopen (run_gen true (witness_ops_in w k))))
+     [CCreatePub; CCreateSub]) all_windows = true.
+Proof. vm_compute. reflexivity. Qed.
+
+Lemma create_inside_close_as_found :
+  map (fun w => P_C18 sv_all keys_all (trace_of sv_all keys_all false (witness_ops_in w CCreatePub))) all_windows
+    = [true; true; false; false; false] /\
+  map (fun w => P_C18 sv_all keys_all (trace_of sv_all keys_all false (witness_ops_in w CCreateSub))) all_windows
+    = [true; true; true; false; false] /\
+  clients (run_gen false (witness_ops_in PhRemote CCreatePub)) = [(0, Pub, 1)].
 Proof. vm_compute. auto. Qed.
 
 Lemma create_after_close_repaired :
